@@ -22,7 +22,7 @@ ASSUMPTIONS = [
 ]
 
 WEIGHTS = {"read": 8, "set": 5, "ctxset": 1.5, "unset": 0.4, "put": 3, "revert": 2, "prevert": 3, "clone": 1, "fork": 1.5,
-           "clear": 0.15, "precompute": 0.6}
+           "clear": 0.15, "precompute": 0.6, "device": 0.3}
 
 
 def shards(tier, seed):
